@@ -1,4 +1,5 @@
 import WM.Model.IdSets
+import WM.Model.NumLists
 /-
 Mirror of `whoosh/filedb/filetables.py`: `HashWriter` (`__init__` header, `add`, `_write_hashes`,
 `_write_directory`), `HashReader` (`_ranges`, `__iter__/items/keys`, `ranges_for_key`, `all`,
@@ -71,17 +72,27 @@ structure File (α : Type) where
   recs : List (Rec α)
   endofdata : Nat
   tables : List (List Slot)
-  /-- `OrderedHashWriter.index` (absolute positions of the keys, in order) -/
-  index : List Nat
+  /-- `extras["indextype"]`: typecode of `OrderedHashWriter.index` (a `GrowableArray("H")`) at close -/
+  indexTC : WM.NumLists.TC
+  /-- `extras["indexlen"]` -/
+  indexLen : Nat
+  /-- the bytes `index.to_file(dbfile)` wrote after the extras (big-endian items) -/
+  indexBytes : List Nat
   deriving Repr
+
+/-- `OrderedHashWriter.index` after `index.append(dbfile.tell())` for every key: the array and
+    whether an `OverflowError` came up (a position of 2^63 or more). -/
+def indexArray (positions : List Nat) : WM.NumLists.GA × Bool :=
+  (WM.NumLists.GA.mk .H [] true).extend (positions.map Int.ofNat)
 
 /-- `HashWriter(dbfile).add_all(kvs); close()` with `dbfile.tell() = startoffset` at creation. -/
 def build {α} (hash : Key → Nat) (vlen : α → Nat) (startoffset : Nat) (kvs : List (Key × α)) :
     Option (File α) :=
   let st := kvs.foldl (addRec vlen) (startoffset + headerSize, [])
   ((List.range 256).mapM fun b => buildTable (bucketEntries hash st.2 b)).map fun tables =>
+    let ga := (indexArray (st.2.map (·.pos))).1
     { startoffset := startoffset, recs := st.2, endofdata := st.1, tables := tables,
-      index := st.2.map (·.pos) }
+      indexTC := ga.tc, indexLen := ga.items.length, indexBytes := ga.toBytes }
 
 /-- `OrderedHashWriter.add`'s guard over the whole key sequence: `key <= self.lastkey` raises
     `ValueError` (`lastkey` starts as `b""`, so the empty key is rejected too). -/
@@ -92,6 +103,42 @@ def orderedKeysOk : Key → List Key → Bool
 /-- position of table `b` in the file (`self.directory`): tables follow the data back to back. -/
 def tablePos {α} (f : File α) (b : Nat) : Nat :=
   f.endofdata + pointerSize * ((f.tables.take b).map List.length).sum
+
+/-! ### the limits of the struct formats
+
+`_lengths = "!ii"` (key and value length: signed 32 bit), `_pointer = "!Iq"` (hash: unsigned 32 bit,
+record position: signed 64 bit), `_dir_entry = "!qi"` (table position: signed 64 bit, slot count:
+signed 32 bit).  `struct.pack` raises `struct.error` for a number outside its format; the position
+index (`GrowableArray`, `allow_longs`) raises `OverflowError` from 2^63 on. -/
+
+/-- every number written by `add`, `_write_hashes` and `_write_directory` fits its format -/
+def formatsOk {α} (hash : Key → Nat) (vlen : α → Nat) (f : File α) : Bool :=
+  f.recs.all (fun r => decide (r.key.length < 2 ^ 31) && decide (vlen r.val < 2 ^ 31)
+      && decide (hash r.key < 2 ^ 32))
+    && f.tables.all (fun t => decide (t.length < 2 ^ 31))
+    && decide (tablePos f 256 < 2 ^ 63)
+
+/-- `HashWriter` with the format limits: `struct.error` when a length, hash value, position or slot
+    count does not fit.  (`none` of `build` = the insertion loop not terminating — excluded by
+    `WM.C20.hash_build_total` — is reported as `index`.  Which of several offending numbers raises
+    first is not modelled: lengths fail inside `add`, the others in `close`.) -/
+def buildE {α} (hash : Key → Nat) (vlen : α → Nat) (startoffset : Nat) (kvs : List (Key × α)) :
+    Except Err (File α) :=
+  match build hash vlen startoffset kvs with
+  | none => .error .index
+  | some f => if formatsOk hash vlen f then .ok f else .error .struct
+
+/-- `OrderedHashWriter`: additionally `ValueError` unless every key is greater than the one before
+    (the first one greater than `b""`), and `OverflowError` from the position index. -/
+def buildOrderedE {α} (hash : Key → Nat) (vlen : α → Nat) (startoffset : Nat) (kvs : List (Key × α)) :
+    Except Err (File α) :=
+  if orderedKeysOk [] (kvs.map (·.1)) then
+    match build hash vlen startoffset kvs with
+    | none => .error .index
+    | some f =>
+      if (indexArray (f.recs.map (·.pos))).2 then .error .overflow
+      else if formatsOk hash vlen f then .ok f else .error .struct
+  else .error .value
 
 /-! ### reader -/
 
@@ -158,12 +205,25 @@ def keyBefore {α} (f : File α) (key : Key) (pos : Nat) : Bool :=
   | some r => decide (r.key < key)
   | none => false
 
-/-- `OrderedHashReader.closest_key_pos`: binary search over the position index comparing
-    `key_at(pos) < key`; a position without a record is an error (`index` is returned to mark it). -/
+/-- `self._get_pos(indexbase + k * indexsize)`: item `k` of the stored index array, read with
+    `get_ushort/get_int/get_uint/get_long` according to `indextype`. -/
+def getPos {α} (f : File α) (k : Nat) : Option Nat :=
+  match WM.NumLists.readItem f.indexTC f.indexBytes k with
+  | some x => if 0 ≤ x then some x.toNat else none
+  | none => none
+
+/-- `key_at(_get_pos(indexbase + mid * indexsize)) < key` -/
+def keyBeforeIdx {α} (f : File α) (key : Key) (k : Nat) : Bool :=
+  match getPos f k with
+  | some p => keyBefore f key p
+  | none => false
+
+/-- `OrderedHashReader.closest_key_pos`: binary search over `[0, indexlen)`, every probe reading the
+    stored index array and the key at that position; an unreadable item is an error. -/
 def closestKeyPos {α} (f : File α) (key : Key) : Except Err (Option Nat) := do
-  let lo ← bisectBy (keyBefore f key) f.index 0 f.index.length
-  if lo = f.index.length then .ok none
-  else match f.index[lo]? with
+  let lo ← bisectBy (keyBeforeIdx f key) (List.range f.indexLen) 0 f.indexLen
+  if lo = f.indexLen then .ok none
+  else match getPos f lo with
     | some p => .ok (some p)
     | none => .error .index
 
